@@ -106,6 +106,14 @@ Theorem model_is_source_C15_WrapVector : forall A : Arith, @SrcEqWrapVector.mode
 Proof. intros A. exact SrcEqWrapVector.model_is_source_WrapVector_lemma. Qed.
 Check model_is_source_C15_WrapVector : forall A : Arith, @SrcEqWrapVector.model_is_source_WrapVector A.
 Print Assumptions model_is_source_C15_WrapVector.
+(* ---- gen/SrcVecCmplx.v: src/vector/vec_cmplx.rs (conj, real, norm_inf of Vector<Complex<T>>) regenerated on every check
+   run; Proofs/SrcEqVecCmplx.v proves conj / real equal to vconj / vreal of Model/Vector.v and norm_inf equal to the loop
+   formulation Newton.norm_inf (NCplx F) that the Newton model calls. *)
+From OV Require Proofs.SrcEqVecCmplx.
+Theorem model_is_source_C15_VecCmplx : forall F : SArith, @SrcEqVecCmplx.model_is_source_VecCmplx F.
+Proof. intros F. exact SrcEqVecCmplx.model_is_source_VecCmplx_lemma. Qed.
+Check model_is_source_C15_VecCmplx : forall F : SArith, @SrcEqVecCmplx.model_is_source_VecCmplx F.
+Print Assumptions model_is_source_C15_VecCmplx.
 
 (* ======================================================================== C16_r2c2.v.txt *)
 (* ---- tie of the model to the source of this run (package r2c2): gen/SrcParDot.v is regenerated from
